@@ -93,12 +93,14 @@ fn show_obs(obs: &[Observation], other: &[String]) -> String {
 // ------------------------------------------------------------------------------------------------
 // cases
 
-#[derive(Clone, Copy, Debug, PartialEq)]
+#[derive(Clone, Debug, PartialEq)]
 enum Src {
     U(u64),
     F(f64),
     D(u64, u32),
     R(f64, u64),
+    /// one value that writes several observations (each `U` / `F` / `R`) in ONE `metric()` call
+    M(Vec<Src>),
 }
 
 impl Src {
@@ -108,6 +110,7 @@ impl Src {
             Src::F(f) => format!("f{}", f64_bits(*f)),
             Src::D(s, n) => format!("d{s}.{n}"),
             Src::R(t, o) => format!("r{}.{}", f64_bits(*t), o),
+            Src::M(v) => format!("m{}", v.iter().map(|o| o.enc()).collect::<Vec<_>>().join("+")),
         }
     }
     fn dec(s: &str) -> Option<Src> {
@@ -133,20 +136,30 @@ impl Src {
                 let (a, b) = body.split_once('.')?;
                 Some(Src::R(bits(a)?, b.parse().ok()?))
             }
+            'm' => {
+                if body.is_empty() {
+                    return Some(Src::M(vec![]));
+                }
+                let v: Option<Vec<Src>> = body.split('+').map(Src::dec).collect();
+                let v = v?;
+                if v.iter().all(|o| matches!(o, Src::U(_) | Src::F(_) | Src::R(..))) { Some(Src::M(v)) } else { None }
+            }
             _ => None,
         }
     }
     fn as_observation(&self) -> Observation {
-        match *self {
+        match self.clone() {
             Src::U(n) => Observation::Unsigned(n),
             Src::F(f) => Observation::Floating(f),
             Src::R(total, occurrences) => Observation::Repeated { total, occurrences },
-            Src::D(..) => unreachable!("durations are not observations"),
+            Src::D(..) | Src::M(_) => unreachable!("not a single observation"),
         }
     }
 }
 
-const KINDS: [&str; 10] = ["u64", "u32", "f64", "f32", "dur", "dur_s", "dur_us", "obs", "obs_kb", "obs_bit"];
+const KINDS: [&str; 13] =
+    ["u64", "u32", "f64", "f32", "dur", "dur_s", "dur_us", "obs", "obs_kb", "obs_bit", "multi", "multi_kb", "dist"];
+const MULTI_KINDS: [&str; 3] = ["multi", "multi_kb", "dist"];
 const STRATEGIES: [&str; 3] = ["exp", "atomic", "sam"];
 
 #[derive(Clone, Debug)]
@@ -186,7 +199,7 @@ impl HCase {
         match self.kind.as_str() {
             "dur_s" => Some(<Millisecond as Convert<Second>>::RATIO),
             "dur_us" => Some(<Millisecond as Convert<Microsecond>>::RATIO),
-            "obs_kb" => Some(<Byte as Convert<Kilobyte>>::RATIO),
+            "obs_kb" | "multi_kb" => Some(<Byte as Convert<Kilobyte>>::RATIO),
             "obs_bit" => Some(<Byte as Convert<Bit>>::RATIO),
             _ => None,
         }
@@ -209,6 +222,7 @@ fn src_fits(kind: &str, s: &Src) -> bool {
         ("f32", Src::F(f)) => (*f as f32) as f64 == *f || f.is_nan(),
         ("dur" | "dur_s" | "dur_us", Src::D(..)) => true,
         ("obs" | "obs_kb" | "obs_bit", Src::U(_) | Src::F(_) | Src::R(..)) => true,
+        ("multi" | "multi_kb" | "dist", Src::M(_)) => true,
         _ => false,
     }
 }
@@ -287,6 +301,34 @@ fn run_typed<T: MetricValue>(strategy: &str, path: char, vals: Vec<T>) -> ImplOu
     }
 }
 
+/// A value that writes all its observations in one `metric()` call (what a distribution-like value, a
+/// pre-aggregated batch or a closed histogram does).
+#[derive(Clone, Debug)]
+struct Multi(Vec<Observation>);
+
+impl Value for Multi {
+    fn write(&self, writer: impl ValueWriter) {
+        writer.metric(self.0.iter().copied(), Unit::None, [], MetricFlags::empty())
+    }
+}
+
+impl MetricValue for Multi {
+    type Unit = metrique_writer_core::unit::None;
+}
+
+fn multi(s: &Src) -> Multi {
+    match s {
+        Src::M(v) => Multi(v.iter().map(|o| o.as_observation()).collect()),
+        _ => unreachable!(),
+    }
+}
+
+type Dist = metrique_writer::value::Distribution<Observation>;
+
+fn dist(s: &Src) -> Dist {
+    multi(s).0.into_iter().collect()
+}
+
 fn dur(s: &Src) -> Duration {
     match *s {
         Src::D(secs, nanos) => Duration::new(secs, nanos),
@@ -321,6 +363,13 @@ fn run_impl_with(c: &HCase, strategy: &str) -> Result<ImplOut, String> {
         "dur_us" => {
             run_typed::<WithUnit<Duration, Microsecond>>(strategy, c.path, s.iter().map(|v| dur(v).into()).collect())
         }
+        "multi" => run_typed::<Multi>(strategy, c.path, s.iter().map(multi).collect()),
+        "multi_kb" => run_typed::<WithUnit<WithUnit<Multi, Byte>, Kilobyte>>(
+            strategy,
+            c.path,
+            s.iter().map(|v| WithUnit::from(WithUnit::from(multi(v)))).collect(),
+        ),
+        "dist" => run_typed::<Dist>(strategy, c.path, s.iter().map(dist).collect()),
         "obs" => run_typed::<Observation>(strategy, c.path, s.iter().map(|v| v.as_observation()).collect()),
         "obs_kb" => run_typed::<WithUnit<WithUnit<Observation, Byte>, Kilobyte>>(
             strategy,
@@ -355,6 +404,9 @@ fn originals(c: &HCase) -> Vec<(f64, u64)> {
             "dur" => obs_of(dur(s)),
             "dur_s" => obs_of(WithUnit::<Duration, Second>::from(dur(s))),
             "dur_us" => obs_of(WithUnit::<Duration, Microsecond>::from(dur(s))),
+            "multi" => obs_of(multi(s)),
+            "multi_kb" => obs_of(WithUnit::<WithUnit<Multi, Byte>, Kilobyte>::from(WithUnit::from(multi(s)))),
+            "dist" => obs_of(dist(s)),
             "obs" => obs_of(s.as_observation()),
             "obs_kb" => obs_of(WithUnit::<WithUnit<Observation, Byte>, Kilobyte>::from(WithUnit::from(s.as_observation()))),
             _ => obs_of(WithUnit::<WithUnit<Observation, Byte>, Bit>::from(WithUnit::from(s.as_observation()))),
@@ -722,47 +774,120 @@ fn gen_src(rng: &mut Rng, kind: &str, v: f64, big_counts: bool) -> Src {
     }
 }
 
+/// one single-observation source of kind `kind`, respecting the occurrence budget (`None`: budget used up)
+fn gen_one(rng: &mut Rng, layout: &Layout, nasty: bool, pool: &[f64], kind: &str, sam: bool, budget: &mut u64) -> Option<Src> {
+    let v = if nasty && rng.chance(1, 3) {
+        nasty_value(rng)
+    } else if rng.chance(1, 2) {
+        *rng.pick(pool)
+    } else {
+        gen_value(rng, layout)
+    };
+    let big = !sam && (nasty || rng.chance(1, 4));
+    let mut s = gen_src(rng, kind, v, big);
+    // keep the total occurrence count below 2^64 (except in the nasty stream) and bounded for SortAndMerge
+    if let Src::R(t, occ) = s {
+        let cap = if sam { (*budget).min(rng.range(1, 50)) } else if nasty { u64::MAX } else { *budget / 2 };
+        if occ > cap {
+            let k = cap;
+            s = Src::R(if k == 0 { t } else { t / occ as f64 * k as f64 }, k);
+        }
+    }
+    let used = match s {
+        Src::R(_, o) => o,
+        _ => 1,
+    };
+    if sam && used > *budget {
+        return None;
+    }
+    *budget = budget.saturating_sub(used);
+    Some(s)
+}
+
+/// an empty repeat: zero occurrences, with an innocent or a nasty total
+fn empty_repeat(rng: &mut Rng) -> Src {
+    Src::R(*rng.pick(&[0.0, 0.0, 1.0, 1234.5, -1.0, f64::NAN, f64::INFINITY, f64::MAX, 5e-324]), 0)
+}
+
+/// one value writing several observations in ONE `metric()` call: mixes of Unsigned / Floating / Repeated
+/// (incl. zero totals) with empty repeats first / in the middle / last / several / everywhere
+fn gen_multi(rng: &mut Rng, layout: &Layout, nasty: bool, pool: &[f64], sam: bool, budget: &mut u64) -> Src {
+    let m = match rng.below(8) {
+        0 => 0,
+        1 => 1,
+        _ => rng.range(2, 6),
+    };
+    let mut obs = vec![];
+    for _ in 0..m {
+        if rng.chance(1, 12) && *budget >= 3 {
+            // zero total with a positive count: n observations of 0
+            let n = rng.range(1, 3);
+            *budget = budget.saturating_sub(n);
+            obs.push(Src::R(0.0, n));
+            continue;
+        }
+        match gen_one(rng, layout, nasty, pool, "obs", sam, budget) {
+            Some(s) => obs.push(s),
+            None => break,
+        }
+    }
+    let len = obs.len();
+    match rng.below(9) {
+        0 | 1 => {}
+        2 => obs.insert(0, empty_repeat(rng)),
+        3 => obs.push(empty_repeat(rng)),
+        4 => obs.insert(len / 2, empty_repeat(rng)),
+        5 => {
+            obs.insert(0, empty_repeat(rng));
+            obs.push(empty_repeat(rng));
+        }
+        6 => {
+            for _ in 0..rng.range(2, 4) {
+                let at = rng.below(obs.len() as u64 + 1) as usize;
+                obs.insert(at, empty_repeat(rng));
+            }
+        }
+        7 => {
+            // at every position
+            let mut all = vec![empty_repeat(rng)];
+            for o in obs.drain(..) {
+                all.push(o);
+                all.push(empty_repeat(rng));
+            }
+            obs = all;
+        }
+        _ => {
+            let at = rng.below(obs.len() as u64 + 1) as usize;
+            obs.insert(at, empty_repeat(rng));
+        }
+    }
+    Src::M(obs)
+}
+
 fn gen_hcase(rng: &mut Rng, layout: &Layout, nasty: bool) -> HCase {
     let strategy = (*rng.pick(&["exp", "exp", "atomic", "sam"])).to_string();
-    let kind = (*rng.pick(&KINDS)).to_string();
+    let kind = if rng.chance(1, 3) { (*rng.pick(&MULTI_KINDS)).to_string() } else { (*rng.pick(&KINDS)).to_string() };
     let path = if strategy == "atomic" { 'a' } else { *rng.pick(&['m', 'a']) };
     let sam = strategy == "sam";
+    let is_multi = MULTI_KINDS.contains(&kind.as_str());
     let n = match rng.below(10) {
         0 => 0,
         1 => 1,
         2..=7 => rng.range(2, 12),
-        _ => rng.range(13, 60),
+        _ => if is_multi { rng.range(13, 24) } else { rng.range(13, 60) },
     } as usize;
     let pool: Vec<f64> = (0..rng.range(1, 6)).map(|_| gen_value(rng, layout)).collect();
     let mut srcs = vec![];
     let mut budget: u64 = if sam { if rng.chance(1, 50) { SAM_MAX_OCCURRENCES } else { 400 } } else { u64::MAX };
     for _ in 0..n {
-        let v = if nasty && rng.chance(1, 3) {
-            nasty_value(rng)
-        } else if rng.chance(1, 2) {
-            *rng.pick(&pool)
+        if is_multi {
+            srcs.push(gen_multi(rng, layout, nasty, &pool, sam, &mut budget));
         } else {
-            gen_value(rng, layout)
-        };
-        let big = !sam && (nasty || rng.chance(1, 4));
-        let mut s = gen_src(rng, &kind, v, big);
-        // keep the total occurrence count below 2^64 (except in the nasty stream) and bounded for SortAndMerge
-        if let Src::R(t, occ) = s {
-            let cap = if sam { budget.min(rng.range(1, 50)) } else if nasty { u64::MAX } else { budget / 2 };
-            if occ > cap {
-                let k = cap;
-                s = Src::R(if k == 0 { t } else { t / occ as f64 * k as f64 }, k);
+            match gen_one(rng, layout, nasty, &pool, &kind, sam, &mut budget) {
+                Some(s) => srcs.push(s),
+                None => break,
             }
         }
-        let used = match s {
-            Src::R(_, o) => o,
-            _ => 1,
-        };
-        if sam && used > budget {
-            break;
-        }
-        budget = budget.saturating_sub(used);
-        srcs.push(s);
     }
     HCase { kind, path, strategy, srcs }
 }
@@ -788,7 +913,26 @@ fn boundary_cases(layout: &Layout, i: usize, rng: &mut Rng) -> Vec<HCase> {
         .collect();
     let strategy = if i % 2 == 0 { "exp" } else { "atomic" };
     let path = if strategy == "exp" && i % 4 == 0 { 'm' } else { 'a' };
+    // the four probes written by ONE value in one metric() call, an empty repeat at position i mod 5
+    // (first … last), as Unsigned/Floating/Repeated mix; every third bucket through sort-and-merge
+    let mut one_call: Vec<Src> = ns
+        .iter()
+        .enumerate()
+        .map(|(k, n)| match (i + k) % 3 {
+            0 => Src::F(*n as f64 / 1024.0),
+            1 => Src::R(*n as f64 / 1024.0 * 3.0, 3),
+            _ => Src::U(*n / 1024),
+        })
+        .collect();
+    one_call.insert(i % 5, Src::R(if i % 2 == 0 { 0.0 } else { 7.5 }, 0));
+    let (mstrategy, mpath) = match i % 3 {
+        0 => ("sam", if i % 2 == 0 { 'm' } else { 'a' }),
+        1 => ("exp", 'm'),
+        _ => ("atomic", 'a'),
+    };
+    let mkind = ["multi", "dist", "multi_kb"][(i / 3) % 3];
     vec![
+        HCase { kind: mkind.into(), path: mpath, strategy: mstrategy.into(), srcs: vec![Src::M(one_call)] },
         HCase { kind: "f64".into(), path, strategy: strategy.into(), srcs: exact },
         HCase { kind: "f64".into(), path, strategy: strategy.into(), srcs: around },
         HCase { kind: "obs".into(), path, strategy: strategy.into(), srcs: counted },
@@ -807,6 +951,11 @@ struct TraceOut {
     shared_closed: String,
     sequential_closed: String,
     drains: usize,
+    /// stage (c): multi-observation values added by all threads into one SharedHistogram
+    multi_request: String,
+    multi_impl: String,
+    multi_expected: u128,
+    multi_got: u128,
 }
 
 fn run_trace(seed: u64, threads: usize, ops: usize, layout: &Layout) -> TraceOut {
@@ -917,6 +1066,47 @@ fn run_trace(seed: u64, threads: usize, ops: usize, layout: &Layout) -> TraceOut
         m.into_iter().collect()
     };
     let (qo, qx) = observe(&hseq.close());
+    // (c) SharedHistogram::add_value of values that write several observations in one metric() call
+    // (empty repeats at every position) from all threads; closed afterwards
+    let mut budget = 1u64 << 40; // per run; keeps the report's counters far from u64 overflow
+    let mplans: Vec<Vec<Src>> = (0..threads)
+        .map(|t| {
+            let mut r = rng.fork(1000 + t as u64);
+            (0..(ops / 16).max(8)).map(|_| gen_multi(&mut r, layout, false, &pool, false, &mut budget)).collect()
+        })
+        .collect();
+    let mshared: Arc<SharedHistogram<Multi, AtomicExponentialAggregationStrategy>> = Arc::new(SharedHistogram::default());
+    let mut handles = vec![];
+    for plan in mplans.clone() {
+        let s = mshared.clone();
+        handles.push(std::thread::spawn(move || {
+            for (i, v) in plan.iter().enumerate() {
+                s.add_value(multi(v));
+                if i % 16 == 0 {
+                    std::thread::yield_now();
+                }
+            }
+        }));
+    }
+    for h in handles {
+        h.join().expect("multi add_value thread");
+    }
+    let mshared = Arc::try_unwrap(mshared).ok().expect("all clones dropped");
+    let mout = finish(mshared.close(), 'a', "atomic");
+    let multi_expected: u128 = mplans
+        .iter()
+        .flatten()
+        .map(|v| match v {
+            Src::M(obs) => obs.iter().map(|o| if let Src::R(_, n) = o { *n as u128 } else { 1 }).sum::<u128>(),
+            _ => 0,
+        })
+        .sum();
+    let multi_got: u128 = mout
+        .closed_obs
+        .iter()
+        .map(|o| if let Observation::Repeated { occurrences, .. } = o { *occurrences as u128 } else { 0 })
+        .sum();
+    let multi_request = format!("hist atomic - {}", mplans.iter().flatten().map(|v| v.enc()).collect::<Vec<_>>().join(" "));
     let request = format!(
         "trace {} | {}",
         if recs.is_empty() { "-".into() } else { recs.iter().map(|(b, n)| format!("f{b:016x}*{n}")).collect::<Vec<_>>().join(",") },
@@ -931,6 +1121,10 @@ fn run_trace(seed: u64, threads: usize, ops: usize, layout: &Layout) -> TraceOut
         shared_closed: show_obs(&so, &sx),
         sequential_closed: show_obs(&qo, &qx),
         drains: drains.len(),
+        multi_request,
+        multi_impl: format!("{} | {}", mout.closed, mout.reagg),
+        multi_expected,
+        multi_got,
     }
 }
 
@@ -1001,6 +1195,26 @@ fn process_shard(args: &Args, cases: Vec<Case>, layouts: &[Layout], shard: usize
                     2..=12 => "values:2-12",
                     _ => "values:13+",
                 });
+                let multis: Vec<&Vec<Src>> = c.srcs.iter().filter_map(|s| if let Src::M(v) = s { Some(v) } else { None }).collect();
+                if !multis.is_empty() {
+                    let empty = |o: &Src| matches!(o, Src::R(_, 0));
+                    rep.bump_by("multi: add_value calls writing several observations at once", multis.iter().filter(|v| v.len() >= 2).count() as u64);
+                    rep.bump_by("multi: calls with an empty repeat first", multis.iter().filter(|v| v.len() >= 2 && empty(&v[0])).count() as u64);
+                    rep.bump_by("multi: calls with an empty repeat last", multis.iter().filter(|v| v.len() >= 2 && empty(&v[v.len() - 1])).count() as u64);
+                    rep.bump_by(
+                        "multi: calls with an empty repeat in the middle",
+                        multis.iter().filter(|v| v.len() >= 3 && v[1..v.len() - 1].iter().any(empty)).count() as u64,
+                    );
+                    rep.bump_by("multi: calls with several empty repeats", multis.iter().filter(|v| v.iter().filter(|o| empty(o)).count() >= 2).count() as u64);
+                    rep.bump_by(
+                        "multi: calls with a zero-total repeat (n > 0)",
+                        multis.iter().filter(|v| v.iter().any(|o| matches!(o, Src::R(t, n) if *t == 0.0 && *n > 0))).count() as u64,
+                    );
+                    rep.bump_by(
+                        "multi: calls with observations AFTER an empty repeat",
+                        multis.iter().filter(|v| v.iter().position(empty).map(|p| v[p + 1..].iter().any(|o| !empty(o))).unwrap_or(false)).count() as u64,
+                    );
+                }
                 rep.bump(if in_domain(&orig) { "domain:inside" } else { "domain:outside (NaN/inf/negative/>=2^43/count overflow)" });
                 if orig.iter().any(|(_, n)| *n >= 1 << 47) {
                     rep.bump("counts:some >= 2^47");
@@ -1022,11 +1236,7 @@ fn process_shard(args: &Args, cases: Vec<Case>, layouts: &[Layout], shard: usize
                             rep.sample(json!({"case": enc, "closed": o.closed, "reaggregated": o.reagg}));
                         }
                         if let Some((key, what)) = oracle(c, &o, Some(&mut rep)) {
-                            let srcs = shrink_list(&c.srcs, |s| {
-                                let cc = HCase { srcs: s.to_vec(), ..c.clone() };
-                                oracle_fails(&cc).map(|(k, _, _)| k == key).unwrap_or(false)
-                            });
-                            let cc = HCase { srcs, ..c.clone() };
+                            let cc = shrink_case(c, &|cc: &HCase| oracle_fails(cc).map(|(k, _, _)| k == key).unwrap_or(false));
                             let (k, w, out) = oracle_fails(&cc).unwrap_or((key, what, format!("{} | {}", o.closed, o.reagg)));
                             fail(&mut rep, &k, &cc.encode(), &out, &w);
                         }
@@ -1069,8 +1279,25 @@ fn process_shard(args: &Args, cases: Vec<Case>, layouts: &[Layout], shard: usize
                         "SharedHistogram filled by 8 threads reports something else than Histogram filled sequentially",
                     );
                 }
+                rep.bump_by("concurrent: occurrences added through multi-observation values", t.multi_expected as u64);
+                if t.multi_expected != t.multi_got {
+                    fail(
+                        &mut rep,
+                        "histogram:concurrent:multi-count",
+                        &enc,
+                        &format!("expected={} reported={}", t.multi_expected, t.multi_got),
+                        "SharedHistogram filled by 8 threads with multi-observation values (empty repeats at all positions) lost or invented observations",
+                    );
+                }
                 requests.push(t.request);
-                pending.push(Pending { case: enc, component: "histogram/concurrent-trace", impl_out: format!("accept {}", t.recorded), hcase: None });
+                pending.push(Pending {
+                    case: enc.clone(),
+                    component: "histogram/concurrent-trace",
+                    impl_out: format!("accept {}", t.recorded),
+                    hcase: None,
+                });
+                requests.push(t.multi_request);
+                pending.push(Pending { case: enc, component: "histogram/concurrent-add_value", impl_out: t.multi_impl, hcase: None });
             }
         }
     }
@@ -1089,8 +1316,7 @@ fn process_shard(args: &Args, cases: Vec<Case>, layouts: &[Layout], shard: usize
                             let m = run_driver(&args.driver, "histogram", &[cc.request()])?.pop()?;
                             if i != m { Some((i, m)) } else { None }
                         };
-                        let srcs = shrink_list(&c.srcs, |s| differs(&HCase { srcs: s.to_vec(), ..c.clone() }).is_some());
-                        let cc = HCase { srcs, ..c.clone() };
+                        let cc = shrink_case(c, &|cc: &HCase| differs(cc).is_some());
                         if let Some((i, m)) = differs(&cc) {
                             shrunk = Some((cc.encode(), i, m));
                         }
@@ -1108,11 +1334,7 @@ fn process_shard(args: &Args, cases: Vec<Case>, layouts: &[Layout], shard: usize
                             let cc = neighbour(c, &mut rng, k);
                             rep.search_cases += 1;
                             if let Some((key, what, out)) = oracle_fails(&cc) {
-                                let srcs = shrink_list(&cc.srcs, |s| {
-                                    let c2 = HCase { srcs: s.to_vec(), ..cc.clone() };
-                                    oracle_fails(&c2).map(|(k2, _, _)| k2 == key).unwrap_or(false)
-                                });
-                                let c2 = HCase { srcs, ..cc.clone() };
+                                let c2 = shrink_case(&cc, &|c2: &HCase| oracle_fails(c2).map(|(k2, _, _)| k2 == key).unwrap_or(false));
                                 let (k2, w2, o2) = oracle_fails(&c2).unwrap_or((key, what, out));
                                 fail(&mut rep, &k2, &c2.encode(), &o2, &w2);
                                 rep.search_found = true;
@@ -1126,6 +1348,23 @@ fn process_shard(args: &Args, cases: Vec<Case>, layouts: &[Layout], shard: usize
         None => rep.driver_available = false,
     }
     rep
+}
+
+/// delta-debugging over the `add_value` calls, then inside every multi-observation value
+fn shrink_case(c: &HCase, fails: &dyn Fn(&HCase) -> bool) -> HCase {
+    let srcs = shrink_list(&c.srcs, |s| fails(&HCase { srcs: s.to_vec(), ..c.clone() }));
+    let mut cur = HCase { srcs, ..c.clone() };
+    for i in 0..cur.srcs.len() {
+        if let Src::M(obs) = cur.srcs[i].clone() {
+            let inner = shrink_list(&obs, |o| {
+                let mut cc = cur.clone();
+                cc.srcs[i] = Src::M(o.to_vec());
+                fails(&cc)
+            });
+            cur.srcs[i] = Src::M(inner);
+        }
+    }
+    cur
 }
 
 /// a case near `c`: same shape, values moved by a few ulps / to neighbouring buckets, counts perturbed
@@ -1149,7 +1388,7 @@ fn neighbour(c: &HCase, rng: &mut Rng, k: u64) -> HCase {
     let n = cc.srcs.len();
     for _ in 0..=(k % 3) {
         let i = rng.below(n as u64) as usize;
-        cc.srcs[i] = match cc.srcs[i] {
+        cc.srcs[i] = match cc.srcs[i].clone() {
             Src::F(v) => {
                 let w = tweak(v, rng);
                 if cc.kind == "f32" { Src::F((w as f32) as f64) } else { Src::F(w) }
@@ -1163,6 +1402,20 @@ fn neighbour(c: &HCase, rng: &mut Rng, k: u64) -> HCase {
                 let o2 = if cc.strategy == "sam" { o.clamp(1, 50) } else { o.max(1) };
                 let v = tweak(t / o.max(1) as f64, rng);
                 Src::R(v * o2 as f64, o2)
+            }
+            Src::M(mut v) => {
+                match rng.below(3) {
+                    0 => {
+                        let at = rng.below(v.len() as u64 + 1) as usize;
+                        v.insert(at, Src::R(0.0, 0));
+                    }
+                    1 if !v.is_empty() => {
+                        let at = rng.below(v.len() as u64) as usize;
+                        v.remove(at);
+                    }
+                    _ => v.push(Src::F(rng.below(1 << 16) as f64 / 1024.0)),
+                }
+                Src::M(v)
             }
         };
     }
@@ -1208,7 +1461,7 @@ fn merge(rep: &mut Report, r: Report) {
 }
 
 fn main() {
-    quiet_panics();
+    if std::env::var("C11_LOUD").is_err() { quiet_panics(); }
     let args = Args::parse();
     let mut rng = Rng::new(args.seed);
     let thorough = args.thorough();
